@@ -332,3 +332,19 @@ package core
 //@ func (*Spec).Spec returns r
 //@   modifies nothing
 //@   ensures r == s
+
+// Walked.DoEmitted hands the emitted messages to the callback stride by
+// stride and, within a stride, in emission order, each exactly once; it stops
+// at the callback's first error and returns it.
+// (The callback is assumed not to modify the Walked it is shown - profile pure.)
+//@ sig core.emitCallback(x) returns (err)
+//@   logged
+//@   modifies[;profile=pure] nothing
+//@ func (Walked).DoEmitted returns err
+//@   safety C08
+//@   calls f as sig:core.emitCallback
+//@   requires f != nil
+//@   requires forall j int :: 0 <= j && j < len(w.Strides) ==> w.Strides[j] != nil && w.Strides[j].Events != nil
+//@   loop 1 ghostfn cb(rangeindex + 1) = ncalls("sig:core.emitCallback")
+//@   loop 1 invariant[C08] each: rangeindex >= 0 ==> ncalls("sig:core.emitCallback") == cb(rangeindex) + 1 && lastarg("sig:core.emitCallback", x) == stride.Emitted[rangeindex] && lastret("sig:core.emitCallback", err) == nil
+//@   ensures[C08] stops: err != nil ==> err == lastret("sig:core.emitCallback", err)
